@@ -169,4 +169,43 @@ example : moduleName (fun l => if l.length = 2 then 0x36efdf1 else 0x1de75c16) [
     = [95, 99, 102, 102, 105, 95, 95, 120, 51, 54, 101, 102, 100, 102, 49, 120, 49, 100, 101, 55, 53, 99, 49, 54] := by
   decide
 
+/-- **The model is the Python source.**  `Generated/FlattenPy.lean` is
+re-translated on every run (translate/c32_py.py) from `ffiplatform._flatten`
+(the `isinstance` dispatch and its order, the four format strings with their
+arguments, `sorted(x.keys())`, what the loops flatten) and from the name
+computation of `Verifier.__init__` (the list of key parts and the separator of
+the join, `key[0::2]` / `key[1::2]`, the mask, `hex`, the strip sets and the
+name format).  Each branch of the model's `flatten`, the model's `key` and — for
+a 32-bit `crc` — the model's `moduleName` are equal to those translations, so
+the theorems above are statements about the code as it is now. -/
+theorem model_is_the_translated_source :
+    (∀ s, Generated.FlattenPy.write_str s = some (flatten (.str s))) ∧
+    (∀ i, Generated.FlattenPy.write_int i = some (flatten (.int i))) ∧
+    (∀ xs, (Generated.FlattenPy.write_list_head xs.length).map (· ++ flattenList xs)
+        = some (flatten (.list xs))) ∧
+    (∀ kvs, (Generated.FlattenPy.write_dict_head kvs.length).map
+        (· ++ joinPairs ((if Generated.FlattenPy.dict_keys_sorted then sortPairs else id) (flattenPairs kvs)))
+        = some (flatten (.dict kvs))) ∧
+    (∀ k, flattenKey k = match k with | .int i => flatten (.int i) | .str s => flatten (.str s)) ∧
+    Generated.FlattenPy.dispatch = ["str", "dict", "(list, tuple)", "int_or_long"] ∧
+    Generated.FlattenPy.dict_loop = ["key", "x[key]"] ∧ Generated.FlattenPy.list_loop = ["value"] ∧
+    (∀ pv vm pre kw cdefs, key pv vm pre kw cdefs
+        = Generated.FlattenPy.key_text pv vm pre (flatten kw) cdefs) ∧
+    (∀ (crc : List Nat → Nat), (∀ l, crc l < 4294967296) → ∀ tag classKey kb,
+        Generated.FlattenPy.name_of crc tag classKey kb = some (moduleName crc tag classKey kb)) := by
+  refine ⟨?_, ?_, ?_, ?_, ?_, rfl, rfl, rfl, ?_, name_of_eq⟩
+  · intro s
+    simp [Generated.FlattenPy.write_str, PyText.format, flatten, intDigits_natCast]
+  · intro i
+    simp [Generated.FlattenPy.write_int, PyText.format, flatten]
+  · intro xs
+    simp [Generated.FlattenPy.write_list_head, PyText.format, flatten, intDigits_natCast]
+  · intro kvs
+    simp [Generated.FlattenPy.write_dict_head, Generated.FlattenPy.dict_keys_sorted, PyText.format,
+      flatten, intDigits_natCast]
+  · intro k
+    cases k <;> simp [flattenKey, flatten]
+  · intro pv vm pre kw cdefs
+    simp only [key, Generated.FlattenPy.key_text, joinNul_eq_join, List.cons_append, List.nil_append]
+
 end CffiVerif.C32
